@@ -2,7 +2,8 @@
 
 Complete small-scope enumeration of parent populations, parent index tuples, chromosome layouts /
 genetic positions, selfing depths, chunk sizes, marker effects and all sixteen variance / covariance
-matrix classes (+ factories, + the usefulness-criterion problems) on the real code, against the
+matrix classes (+ factories, + the usefulness-criterion problems), plus build HISTORIES on shared objects
+(one ingredient changed between consecutive builds, incl. in-place edits), on the real code, against the
 exhaustive gamete-enumeration oracle of mc/ref/crossvar.py, and against the exact progeny
 distribution of the real mating protocols under the weighted scripted generator.
 """
@@ -35,7 +36,13 @@ RULE = ("one evaluation = one matrix build (class, entry point, parent populatio
         "chromosome lengths 1..4, each build also compared with the mem=None build; L4: every weighted answer vector "
         "of TwoWayDHCross/ThreeWayDHCross/FourWayDHCross.mate for selected crosses (m=2, nself<=2; m=3 for the cheap "
         "ones); L5: all taxon permutations; L6: 5 factories x both entry points, from_gmod with default arguments for "
-        "all 16 classes, 4 UC problem classes x 4 schemes x unique_parents x {from_pgmat_gpmod, ..._xmap}. "
+        "all 16 classes, 4 UC problem classes x 4 schemes x unique_parents x {from_pgmat_gpmod, ..._xmap}; "
+        "L7 (histories): sequences of 3-10 builds in one process on SHARED pgmat / model / factory / map-function objects "
+        "in which exactly one ingredient changes between consecutive builds (new model object, model edited in place, "
+        "pgmat.mat or vrnt_genpos edited in place, nself, counts, map-function object, mem, unique_parents, entry point, "
+        "percentile): [A,B,A] for every single change B of A plus one accumulating chain, for the 4 UC problem classes, "
+        "all 16 matrix classes and the factories; every build must equal the reference AND the same configuration "
+        "built afterwards in isolation from fresh objects; every library call is followed by an inputs-untouched check. "
         "non-trivial = a build with at least one parent tuple whose expected variance is non-zero and (genetic classes) "
         "changed by linkage (genetic != genic); distinct by digest of the configuration")
 ASSUME = ["Haldane (no interference) meiosis; genetic positions in Morgans; unlinked chromosomes r = 1/2",
@@ -47,6 +54,8 @@ ASSUME = ["Haldane (no interference) meiosis; genetic positions in Morgans; unli
           "population spaces marked 'flip' in bounds.L1_population_spaces (4-way n=3 m=3 and dihybrid n=2 m=3 in the quick "
           "tier; m=4 in the thorough tier) are enumerated up to the allele-relabelling symmetry (copy 0 of taxon 0 = 0..0); "
           "all spaces marked 'full' are complete",
+          "input objects created by the harness are kept alive (ring of 1024) so that an id()-keyed cache in the library "
+          "cannot be hit through address reuse: stale-cache defects then show deterministically in the history layer",
           "mc/compat.py restores removed numpy names only"]
 
 SCHEMES = ("2way", "3way", "4way", "dihybrid")
@@ -207,6 +216,11 @@ def population(scheme, n, m, mode, idx):
 # ----------------------------------------------------------------------------
 # library objects
 _HALDANE = None
+# every input object handed to the library stays alive for a while: an id()-keyed cache inside the library can
+# then never be hit by an unrelated later object that happens to get the same address, which would make a
+# stale-cache defect show (or hide) depending on the allocator instead of on the history that was run
+import collections
+_KEEP = collections.deque(maxlen=1024)
 
 
 def haldane_fn():
@@ -241,6 +255,7 @@ def make_pgmat(pop, layout, seed, xoprob=False, order=None):
         vrnt_genpos=numpy.array(genpos, dtype="float64"),
         **kw)
     pg.group_vrnt()
+    _KEEP.append(pg)
     return pg
 
 
@@ -248,9 +263,11 @@ def make_model(u, seed):
     from pybrops.model.gmod.DenseAdditiveLinearGenomicModel import DenseAdditiveLinearGenomicModel
     u = numpy.array(u, dtype="float64")
     t = u.shape[1]
-    return DenseAdditiveLinearGenomicModel(
+    gm = DenseAdditiveLinearGenomicModel(
         beta=numpy.zeros((1, t)), u_misc=None, u_a=u,
         trait=numpy.array([["yield", "protein"], ["t1", "t2"], ["A", "B"]][seed % 3][:t], dtype=object))
+    _KEEP.append(gm)
+    return gm
 
 
 @contextlib.contextmanager
@@ -271,16 +288,41 @@ def poisoned_empty():
         numpy.empty = real
 
 
-def lib_build(scheme, kind, entry, pg, gm, nself, mem, counts):
+def input_state(pg, gm=None):
+    """Everything the caller handed to the library, as bytes / lists (for the 'inputs untouched' oracle)."""
+    st = [pg.mat.tobytes(), pg.mat.shape, pg.mat.dtype.str]
+    for f in ("taxa", "taxa_grp", "vrnt_chrgrp", "vrnt_phypos", "vrnt_name", "vrnt_genpos", "vrnt_xoprob",
+              "vrnt_chrgrp_name", "vrnt_chrgrp_stix", "vrnt_chrgrp_spix", "vrnt_chrgrp_len",
+              "taxa_grp_name", "taxa_grp_stix", "taxa_grp_spix", "taxa_grp_len"):
+        v = getattr(pg, f, None)
+        st.append(None if v is None else (numpy.asarray(v).dtype.str, numpy.asarray(v).tolist()))
+    if gm is not None:
+        for f in ("u_a", "beta", "u_misc", "trait"):
+            v = getattr(gm, f, None)
+            st.append(None if v is None else (numpy.asarray(v).dtype.str, numpy.asarray(v).shape, numpy.asarray(v).tolist()))
+    return st
+
+
+def check_untouched(ctx, before, pg, gm, sig_prefix, case):
+    after = input_state(pg, gm)
+    if after != before:
+        idx = next(i for i, (a, b) in enumerate(zip(before, after)) if a != b)
+        ctx.violation(f"{sig_prefix}input-mutated", f"the call changed its inputs (pgmat / model field #{idx} of input_state)", case)
+        return False
+    ctx.count("inputs-untouched-checked")
+    return True
+
+
+def lib_build(scheme, kind, entry, pg, gm, nself, mem, counts, fn=None, factory=None):
     """Call the real constructor path.  entry: from_algmod | from_gmod | factory.from_algmod | factory.from_gmod"""
     genetic, cntarg = KINDS[kind][2], KINDS[kind][4]
     kw = {"pgmat": pg, "nprogeny": int(counts[1])}
     if genetic:
-        kw.update(nself=nself_val(nself), gmapfn=haldane_fn())
+        kw.update(nself=nself_val(nself), gmapfn=haldane_fn() if fn is None else fn)
     kw.update(mem_kw(mem))
     with poisoned_empty():
         if entry.startswith("factory."):
-            f = get_factory(scheme, kind)()
+            f = get_factory(scheme, kind)() if factory is None else factory
             if genetic:
                 kw["ncross"] = int(counts[0])
             if entry == "factory.from_algmod":
@@ -388,8 +430,10 @@ def fmt(x):
 
 # ----------------------------------------------------------------------------
 # the oracle for one built object
-def check_object(ctx, case, scheme, kind, obj, pg, gm, exp, what="value"):
-    """Compare every entry of a built matrix with the oracle; returns True iff everything agreed."""
+def check_object(ctx, case, scheme, kind, obj, pg, gm, exp, what="value", rec_case=None):
+    """Compare every entry of a built matrix with the oracle; returns True iff everything agreed.
+    `case` describes the build (for the message), `rec_case` is what is recorded for replay."""
+    desc, case = case, (case if rec_case is None else rec_case)
     name = clsname(scheme, kind)
     genetic, iscov = KINDS[kind][2], KINDS[kind][3]
     n, k = pg.ntaxa, NPAR[scheme]
@@ -414,12 +458,12 @@ def check_object(ctx, case, scheme, kind, obj, pg, gm, exp, what="value"):
             tup = tuple(int(v) for v in numpy.argwhere(bad)[0])
             nz = bool(numpy.any(got[tup] != 0))
             ctx.violation(f"{name}:{what}:{et}",
-                          f"{name} entry {list(tup)} (parents {[_gt(case['pop'][i]) for i in tup]}, layout {case['layout']}, "
-                          f"nself={case['nself']}, mem={case['mem']}, u={case['u']}): got {fmt(got[tup])}"
+                          f"{name} entry {list(tup)} (parents {[_gt(desc['pop'][i]) for i in tup]}, layout {desc['layout']}, "
+                          f"nself={desc['nself']}, mem={desc['mem']}, u={desc['u']}): got {fmt(got[tup])}"
                           f"{'' if nz else ' (entry never filled / zero)'}, exhaustive gamete enumeration gives {fmt(want[tup])}; "
                           f"{int(bad.sum())} of {int(msk.sum())} entries of this kind differ in this matrix", case)
     # zero for genetically identical inbred parents (implied by the oracle; counted for the vacuity guard)
-    ident = ident_mask(scheme, case["pop"])
+    ident = ident_mask(scheme, desc["pop"])
     if ident.any():
         ctx.count("entries:identical-inbred-parents(expected 0)", int(ident.sum()))
         assert numpy.all(numpy.abs(want[ident]) <= ATOL), "reference gives variance for identical inbred parents"
@@ -524,14 +568,17 @@ def run_build(ctx, case, pg=None, gm=None, exp=None, ref_obj=None):
     ctx.flag(f"nself:{case['nself']}")
     mem_flags(ctx, case["layout"], case["mem"])
     box = {}
+    before = input_state(pg, gm)
 
     def call():
         box["obj"] = lib_build(scheme, kind, case["entry"], pg, gm, case["nself"], case["mem"], case["counts"])
-    if not ctx.guard(call, case=case, sig_prefix=f"{name}:"):
+    raised = not ctx.guard(call, case=case, sig_prefix=f"{name}:")
+    untouched = check_untouched(ctx, before, pg, gm, f"{name}:", case)
+    if raised:
         ctx.count(f"raised:{name}")
         return None
     obj = box["obj"]
-    ok = check_object(ctx, case, scheme, kind, obj, pg, gm, exp)
+    ok = check_object(ctx, case, scheme, kind, obj, pg, gm, exp) and untouched
     if ref_obj is not None:       # same inputs, other mem / other entry point: must be the same matrix
         if not numpy.allclose(obj.mat, ref_obj.mat, rtol=RTOL, atol=ATOL, equal_nan=True):
             ok = False
@@ -667,44 +714,35 @@ def triu(n, k, unique):
     return out
 
 
-def run_uc(ctx, case):
-    case = norm_case(case)
-    scheme, pname, unique, via, nself, pct = (case["scheme"], case["problem"], case["unique"], case["via"],
-                                              case["nself"], case["pct"])
-    k = NPAR[scheme]
-    pg = make_pgmat(case["pop"], case["layout"], case["seed"])
-    gm = make_model(case["u"], case["seed"])
-    n, t = pg.ntaxa, gm.ntrait
-    P = uc_problem(pname)
-    xmap = triu(n, k, unique)
-    L = len(xmap)
+def uc_space(pname, L):
+    """Decision-space arguments as the UsefulnessCriterion*Selection protocols build them."""
     if pname == "Subset":
-        kw = dict(ndecn=1, decn_space=numpy.arange(L), decn_space_lower=numpy.repeat(0, 1), decn_space_upper=numpy.repeat(L - 1, 1))
-    elif pname == "Real":
-        kw = dict(ndecn=L, decn_space=numpy.stack([numpy.repeat(0.0, L), numpy.repeat(1.0, L)]),
-                  decn_space_lower=numpy.repeat(0.0, L), decn_space_upper=numpy.repeat(1.0, L))
-    else:
-        kw = dict(ndecn=L, decn_space=numpy.stack([numpy.repeat(0, L), numpy.repeat(1, L)]),
-                  decn_space_lower=numpy.repeat(0, L), decn_space_upper=numpy.repeat(1, L))
-    common = dict(nparent=k, ncross=int(case["counts"][0]), nprogeny=int(case["counts"][1]), nself=int(nself),
-                  upper_percentile=float(pct), vmatfcty=get_factory(scheme, "vG")(), gmapfn=haldane_fn(),
-                  unique_parents=bool(unique), pgmat=pg, gpmod=gm, nobj=t, **kw)
-    box = {}
-    ctx.evaluations += 1
-    ctx.transitions += 1
+        return dict(ndecn=1, decn_space=numpy.arange(L), decn_space_lower=numpy.repeat(0, 1), decn_space_upper=numpy.repeat(L - 1, 1))
+    if pname == "Real":
+        return dict(ndecn=L, decn_space=numpy.stack([numpy.repeat(0.0, L), numpy.repeat(1.0, L)]),
+                    decn_space_lower=numpy.repeat(0.0, L), decn_space_upper=numpy.repeat(1.0, L))
+    return dict(ndecn=L, decn_space=numpy.stack([numpy.repeat(0, L), numpy.repeat(1, L)]),
+                decn_space_lower=numpy.repeat(0, L), decn_space_upper=numpy.repeat(1, L))
+
+
+def uc_build(scheme, pname, via, unique, pg, gm, nself, counts, pct, factory, fn):
+    k = NPAR[scheme]
+    xmap = triu(pg.ntaxa, k, unique)
+    common = dict(nparent=k, ncross=int(counts[0]), nprogeny=int(counts[1]), nself=int(nself),
+                  upper_percentile=float(pct), vmatfcty=factory, gmapfn=fn,
+                  unique_parents=bool(unique), pgmat=pg, gpmod=gm, nobj=gm.ntrait, **uc_space(pname, len(xmap)))
+    P = uc_problem(pname)
+    with poisoned_empty():
+        if via == "xmap":
+            return P.from_pgmat_gpmod_xmap(xmap=numpy.array(xmap, dtype="int64"), **common), xmap
+        return P.from_pgmat_gpmod(**common), xmap
+
+
+def uc_compare(ctx, rec_case, scheme, pname, prob, xmap, pop, layout, nself, u, pct):
+    """ucmat == enumerated progeny mean + i * sqrt(enumerated variance), row by row."""
     sigp = f"UsefulnessCriterion{pname}MateSelectionProblem:{WAY[scheme]}DH:"
     sigv = f"UsefulnessCriterionSelectionProblemMixin._calc_uc:{WAY[scheme]}DH:"
-
-    def call():
-        with poisoned_empty():
-            if via == "xmap":
-                box["p"] = P.from_pgmat_gpmod_xmap(xmap=numpy.array(xmap, dtype="int64"), **common)
-            else:
-                box["p"] = P.from_pgmat_gpmod(**common)
-    ctx.count(f"uc:{pname}:{scheme}")
-    if not ctx.guard(call, case=case, sig_prefix=sigp):
-        return
-    prob = box["p"]
+    case = rec_case
     ok = True
     if prob.decn_space_xmap.tolist() != xmap:
         ok = False
@@ -712,15 +750,15 @@ def run_uc(ctx, case):
         xm = prob.decn_space_xmap.tolist()
     else:
         xm = xmap
-    exp = expected(scheme, case["layout"], case["pop"], nself, case["u"])
+    exp = expected(scheme, layout, pop, nself, u)
     si = R.selection_intensity(pct)
     want = numpy.array([exp["mean"][tuple(row)] + si * numpy.sqrt(numpy.diag(exp["cov"][tuple(row)])) for row in xm])
     got = prob.ucmat
     if got.shape != want.shape:
         ctx.violation(sigp + "ucmat-shape", f"{got.shape} expected {want.shape}", case)
-        return
+        return False, want
     # the variance carries the usual tolerance; sqrt() magnifies it near zero, so the comparison is made on
-    # ((uc - mean) / i)^2 = var (and uc >= mean), and on uc itself only where that is well conditioned
+    # ((uc - mean) / i)^2 = var (and uc >= mean)
     mean_x = numpy.array([exp["mean"][tuple(row)] for row in xm])
     var_x = numpy.array([numpy.diag(exp["cov"][tuple(row)]) for row in xm])
     dev = got - mean_x
@@ -734,14 +772,42 @@ def run_uc(ctx, case):
             ok = False
             i = bad[0]
             ctx.violation(sigv + f"ucmat:{et}",
-                          f"cross {xm[i]} (parents {[_gt(case['pop'][j]) for j in xm[i]]}): ucmat row {fmt(got[i])}, expected progeny mean "
+                          f"cross {xm[i]} (parents {[_gt(pop[j]) for j in xm[i]]}): ucmat row {fmt(got[i])}, expected progeny mean "
                           f"{fmt(exp['mean'][tuple(xm[i])])} + {si:.12g} * sqrt(var {fmt(numpy.diag(exp['cov'][tuple(xm[i])]))}) = {fmt(want[i])} "
-                          f"(nself={nself}, upper_percentile={pct})", case)
+                          f"(nself={nself}, upper_percentile={pct}, u={u})", case)
+    if numpy.any(numpy.abs(want - mean_x) > 1e-9):
+        ctx.count("uc-with-nonzero-sd")
+    return ok, want
+
+
+def run_uc(ctx, case):
+    case = norm_case(case)
+    scheme, pname, unique, via, nself, pct = (case["scheme"], case["problem"], case["unique"], case["via"],
+                                              case["nself"], case["pct"])
+    pg = make_pgmat(case["pop"], case["layout"], case["seed"])
+    gm = make_model(case["u"], case["seed"])
+    box = {}
+    ctx.evaluations += 1
+    ctx.transitions += 1
+    sigp = f"UsefulnessCriterion{pname}MateSelectionProblem:{WAY[scheme]}DH:"
+    before = input_state(pg, gm)
+
+    def call():
+        box["p"], box["xmap"] = uc_build(scheme, pname, via, unique, pg, gm, nself, case["counts"], pct,
+                                         get_factory(scheme, "vG")(), haldane_fn())
+    ctx.count(f"uc:{pname}:{scheme}")
+    raised = not ctx.guard(call, case=case, sig_prefix=sigp)
+    untouched = check_untouched(ctx, before, pg, gm, sigp, case)
+    if raised:
+        return
+    prob = box["p"]
+    ok, want = uc_compare(ctx, case, scheme, pname, prob, box["xmap"], case["pop"], case["layout"], nself, case["u"], pct)
     ctx.state(digest(("uc", scheme, pname, unique, via, case["pop"], case["layout"], nself, pct, case["u"])))
-    ctx.outcome(digest(numpy.round(got, 9)))
-    if numpy.any(numpy.abs(want - numpy.array([exp["mean"][tuple(r)] for r in xm])) > 1e-9):
+    ctx.outcome(digest(numpy.round(prob.ucmat, 9)))
+    exp = expected(scheme, case["layout"], case["pop"], nself, case["u"])
+    if numpy.any(numpy.abs(numpy.einsum("...tt->...t", exp["cov"])) > 1e-9):
         ctx.nontriv(digest(("uc", scheme, pname, unique, via, case["pop"], nself, pct)))
-    if ok:
+    if ok and untouched:
         ctx.traces += 1
 
 
@@ -791,6 +857,213 @@ def run_perm(ctx, case):
         ctx.nontriv(digest(("perm", scheme, kind, case["pop"], perm, case["nself"])))
     if ok:
         ctx.traces += 1
+
+
+# ----------------------------------------------------------------------------
+# L7: histories — several builds in ONE process that share the pgmat / factory / map-function / model
+# objects; between builds exactly one ingredient changes (a new model object, the same model edited in
+# place, pgmat.mat or pgmat.vrnt_genpos edited in place, nself, counts, another map-function object, mem,
+# unique_parents, entry point, percentile).  Oracle: every build equals the enumeration reference for the
+# CURRENT contents, and equals the build obtained in isolation from fresh objects (made after the whole
+# sequence, so that it cannot refresh a "last value" memo in between).
+UC_INGREDIENTS = ("model", "model-inplace", "genotype-inplace", "genpos-inplace", "nself", "counts", "mapfn-object",
+                  "unique", "via", "pct")
+MAT_INGREDIENTS_GENETIC = ("model", "model-inplace", "genotype-inplace", "genpos-inplace", "nself", "counts",
+                           "mapfn-object", "mem")
+MAT_INGREDIENTS_GENIC = ("model", "model-inplace", "genotype-inplace", "counts", "mem")
+EFFECTIVE = ("model", "model-inplace", "genotype-inplace", "genpos-inplace", "nself")
+
+
+def _other_genotype(scheme, pop, taxon):
+    """A different genotype for one taxon (inbred stays inbred): alleles complemented, last marker kept."""
+    a, b = pop[taxon]
+    flip = lambda h: tuple((1 - v) if j < len(h) - 1 else v for j, v in enumerate(h))
+    na, nb = flip(a), flip(b)
+    if len(a) == 1:
+        na, nb = tuple(1 - v for v in a), tuple(1 - v for v in b)
+    return tuple((na, nb) if i == taxon else g for i, g in enumerate(pop))
+
+
+def history_variants(target, scheme, kind, base, seed):
+    """ingredient -> the base configuration with exactly this ingredient changed."""
+    m = len(base["genpos"])
+    U = uset(m, seed)
+    alt_u = next(u for u in U[::-1] if len(u[0]) == len(base["u"][0]) and u != base["u"])
+    gp = list(base["genpos"])
+    gp[-1] = gp[-1] + 0.2
+    out = {
+        "model": dict(base, u=alt_u),
+        "model-inplace": dict(base, u=alt_u),
+        "genotype-inplace": dict(base, pop=_other_genotype(scheme, base["pop"], 1)),
+        "genpos-inplace": dict(base, genpos=tuple(gp)),
+        "nself": dict(base, nself=2),
+        "counts": dict(base, counts=(2, 3)),
+        "mapfn-object": dict(base, fn=1),
+        "mem": dict(base, mem=1),
+        "unique": dict(base, unique=not base["unique"]),
+        "via": dict(base, via="xmap"),
+        "pct": dict(base, pct=0.5),
+    }
+    if target == "uc":
+        names = UC_INGREDIENTS
+    else:
+        names = MAT_INGREDIENTS_GENETIC if KINDS[kind][2] else MAT_INGREDIENTS_GENIC
+    return [(g, out[g]) for g in names]
+
+
+def history_sequences(target, scheme, kind, base, seed):
+    """[A, B, A] for every single-ingredient change B of A (covers A->B and B->A), and one chain in which the
+    changes accumulate (pairs whose first member is not the base)."""
+    var = history_variants(target, scheme, kind, base, seed)
+    seqs = []
+    for g, cfg in var:
+        seqs.append([dict(base, changed="first"), dict(cfg, changed=g), dict(base, changed=g)])
+    chain = [dict(base, changed="first")]
+    cur = dict(base)
+    for g, cfg in var:
+        key = {"model": "u", "model-inplace": "u", "genotype-inplace": "pop", "genpos-inplace": "genpos",
+               "mapfn-object": "fn"}.get(g, g)
+        if g == "model-inplace":
+            continue        # same value as "model" — already changed in the chain
+        cur = dict(cur, **{key: cfg[key]})
+        chain.append(dict(cur, changed=g))
+    seqs.append(chain)
+    return seqs
+
+
+def _norm_step(c):
+    c = dict(c)
+    c["pop"] = tuple((tuple(int(v) for v in g[0]), tuple(int(v) for v in g[1])) for g in c["pop"])
+    c["genpos"] = tuple(float(v) for v in c["genpos"])
+    c["u"] = [[float(v) for v in row] for row in c["u"]]
+    c["counts"] = tuple(int(v) for v in c["counts"])
+    return c
+
+
+def run_history(ctx, case):
+    from pybrops.popgen.gmap.HaldaneMapFunction import HaldaneMapFunction
+    case = dict(case)
+    case["steps"] = [_norm_step(c) for c in case["steps"]]
+    case["sizes"] = tuple(int(v) for v in case["sizes"])
+    target, scheme, seed, sizes = case["target"], case["scheme"], case["seed"], case["sizes"]
+    steps = case["steps"]
+    kind = case.get("kind", "vG")
+    entry = case.get("entry", "from_algmod")
+    pname = case.get("problem")
+    if target == "uc":
+        name = "UsefulnessCriterionSelectionProblemMixin._calc_uc"
+        prefix = f"UsefulnessCriterion{pname}MateSelectionProblem:{WAY[scheme]}DH:"
+    else:
+        name = clsname(scheme, kind)
+        prefix = f"{name}:"
+    genetic = target == "uc" or KINDS[kind][2]
+
+    def build(cfg, pg, gm, factory, fns):
+        if target == "uc":
+            prob, xmap = uc_build(scheme, pname, cfg["via"], cfg["unique"], pg, gm, cfg["nself"], cfg["counts"], cfg["pct"],
+                                  factory, fns[cfg["fn"]])
+            return prob, xmap, prob.ucmat.copy()
+        obj = lib_build(scheme, kind, entry, pg, gm, cfg["nself"], cfg["mem"], cfg["counts"], fn=fns[cfg["fn"]],
+                        factory=factory if entry.startswith("factory.") else None)
+        return obj, None, obj.mat.copy()
+
+    def new_factory():
+        if target == "uc":
+            f = get_factory(scheme, "vG")()
+        else:
+            f = get_factory(scheme, kind)() if entry.startswith("factory.") else None
+        _KEEP.append(f)
+        return f
+
+    def new_fns():
+        fns = [HaldaneMapFunction(), HaldaneMapFunction()]
+        _KEEP.append(fns)
+        return fns
+
+    # ---- the history on shared objects
+    first = steps[0]
+    pg = make_pgmat(first["pop"], (sizes, first["genpos"]), seed)
+    gm = make_model(first["u"], seed)
+    factory, fns = new_factory(), new_fns()
+    results, ok = [], True
+    prev = first
+    for i, cfg in enumerate(steps):
+        g = cfg["changed"]
+        if i > 0:
+            if cfg["pop"] != prev["pop"]:
+                pg.mat[:, :, :] = numpy.array([[q[0] for q in cfg["pop"]], [q[1] for q in cfg["pop"]]], dtype="int8")
+            if cfg["genpos"] != prev["genpos"]:
+                pg.vrnt_genpos[:] = numpy.array(cfg["genpos"], dtype="float64")
+            if cfg["u"] != prev["u"]:
+                if g == "model-inplace":
+                    gm.u_a[:, :] = numpy.array(cfg["u"], dtype="float64")
+                else:
+                    gm = make_model(cfg["u"], seed)
+        ctx.evaluations += 1
+        ctx.transitions += 1
+        ctx.count("history:steps")
+        ctx.flag(f"history:{target}:{g}")
+        before = input_state(pg, gm)
+        box = {}
+
+        def call():
+            box["r"] = build(cfg, pg, gm, factory, fns)
+        raised = not ctx.guard(call, case=case, sig_prefix=prefix)
+        ok &= check_untouched(ctx, before, pg, gm, prefix, case)
+        if raised:
+            ok = False
+            results.append(None)
+            prev = cfg
+            continue
+        obj, xmap, arr = box["r"]
+        results.append(arr)
+        layout = (sizes, cfg["genpos"])
+        if target == "uc":
+            ok &= uc_compare(ctx, case, scheme, pname, obj, xmap, cfg["pop"], layout, cfg["nself"], cfg["u"], cfg["pct"])[0]
+        else:
+            exp = expected(scheme, layout, cfg["pop"], cfg["nself"] if genetic else 0, cfg["u"])
+            desc = dict(pop=cfg["pop"], layout=layout, nself=cfg["nself"], mem=cfg["mem"], u=cfg["u"])
+            ok &= check_object(ctx, desc, scheme, kind, obj, pg, gm, exp, rec_case=case)
+        prev = cfg
+    # ---- the same builds in isolation (fresh objects), after the whole sequence
+    iso = []
+    for i, cfg in enumerate(steps):
+        ctx.transitions += 1
+        try:
+            _, _, arr = build(cfg, make_pgmat(cfg["pop"], (sizes, cfg["genpos"]), seed), make_model(cfg["u"], seed),
+                              new_factory(), new_fns())
+        except Exception:
+            arr = None
+        iso.append(arr)
+        a = results[i]
+        if (a is None) != (arr is None) or (a is not None and (a.shape != arr.shape or not numpy.allclose(
+                a, arr, rtol=RTOL, atol=ATOL, equal_nan=True))):
+            ok = False
+            ctx.violation(f"{name}:history-dependence",
+                          f"build #{i} of a sequence on shared objects (changed since the previous build: {cfg['changed']}; "
+                          f"sequence of changes {[c['changed'] for c in steps]}) gives "
+                          f"{None if a is None else fmt(a.ravel()[:8])}, the same configuration built in isolation from fresh objects gives "
+                          f"{None if arr is None else fmt(arr.ravel()[:8])}", case)
+        if i > 0 and arr is not None and iso[i - 1] is not None and (
+                arr.shape != iso[i - 1].shape or not numpy.allclose(arr, iso[i - 1], rtol=RTOL, atol=ATOL, equal_nan=True)):
+            ctx.flag(f"history-effective:{target}:{cfg['changed']}")
+    d = digest(("hist", target, scheme, kind, entry, pname, sizes, [sorted(c.items(), key=str) for c in steps]))
+    ctx.state(d)
+    ctx.outcome(digest([None if r is None else numpy.round(numpy.nan_to_num(r, nan=-777.0), 9) for r in results]))
+    ctx.count("history:sequences")
+    if any(f"history-effective:{target}:{c['changed']}" in ctx.flags for c in steps[1:]):
+        ctx.nontriv(d)
+    if ok:
+        ctx.traces += 1
+
+
+def history_base(scheme, seed, pi):
+    m = 2 if scheme == "4way" else 3
+    n = 4 if scheme == "4way" else 3
+    sizes, genpos = layouts(m, seed)[0]
+    pop = rich_pops(scheme, n, m, 2)[pi]
+    return sizes, dict(pop=pop, genpos=tuple(genpos), u=uset(m, seed)[1 + 2 * pi], nself=0, counts=(1, 1), fn=0,
+                       mem=1024, unique=(scheme != "4way"), via="direct", pct=0.1)
 
 
 # ----------------------------------------------------------------------------
@@ -847,6 +1120,10 @@ def shards(tier, seed):
         out.append(("L6f", scheme))
         for pname in UCPROBLEMS:
             out.append(("L6u", scheme, pname))
+    # ---- L7 histories on shared objects
+    for scheme in SCHEMES:
+        out.append(("L7u", scheme))
+        out.append(("L7m", scheme))
     return out
 
 
@@ -1099,6 +1376,25 @@ def run_shard(spec, ctx):
                                              layout=layout, nself=ns, pct=pct, u=U[(2 * pi + li + 1) % 8],
                                              counts=COUNTS[(pi + ni) % 3], seed=seed))
         ctx.flag("L6u")
+    elif layer == "L7u":
+        _, scheme = spec
+        for pi in range(2):
+            sizes, base = history_base(scheme, seed, pi)
+            for pname in UCPROBLEMS:
+                for steps in history_sequences("uc", scheme, "vG", base, seed):
+                    run_history(ctx, dict(layer="L7", target="uc", scheme=scheme, problem=pname, sizes=sizes, steps=steps, seed=seed))
+        ctx.flag("L7u")
+    elif layer == "L7m":
+        _, scheme = spec
+        for pi in range(2):
+            sizes, base = history_base(scheme, seed, pi)
+            for kind in KINDS:
+                entries = ["from_algmod", "from_gmod"] + (["factory.from_algmod", "factory.from_gmod"] if (scheme, kind) in FACTORIES else [])
+                for entry in entries:
+                    for steps in history_sequences("matrix", scheme, kind, base, seed):
+                        run_history(ctx, dict(layer="L7", target="matrix", scheme=scheme, kind=kind, entry=entry, sizes=sizes,
+                                              steps=steps, seed=seed))
+        ctx.flag("L7m")
     else:
         raise KeyError(layer)
 
@@ -1117,11 +1413,19 @@ def finalize(ctx, tier, seed):
     for f in ("nself:0", "nself:1", "nself:2", "nself:5", "nself:inf", "mem:None", "mem:default", "mem<chrom", "mem==chrom",
               "mem>chrom", "mem divides chrom", "mem does not divide chrom", "r:unlinked-chromosomes", "r:coincident(0)",
               "r:half-within-chromosome", "r:linked", "chromosome-with-one-marker", "entry:from_algmod", "entry:from_gmod",
-              "entry:factory.from_algmod", "entry:factory.from_gmod", "L2:all-effect-vectors", "L3", "L4", "L5", "L6f", "L6u"):
+              "entry:factory.from_algmod", "entry:factory.from_gmod", "L2:all-effect-vectors", "L3", "L4", "L5", "L6f", "L6u", "L7u", "L7m"):
         assert f in ctx.flags, f"shortcut case never exercised: {f}"
     for et in ("cross", "self", "female==male", "female1==male1"):
         assert c.get(f"entries:{et}", 0) > 0, et
         assert c.get(f"uc-entries:{et}", 0) > 0, et
+    for g in UC_INGREDIENTS:
+        assert f"history:uc:{g}" in ctx.flags, g
+    for g in MAT_INGREDIENTS_GENETIC:
+        assert f"history:matrix:{g}" in ctx.flags, g
+    for g in EFFECTIVE:
+        assert f"history-effective:uc:{g}" in ctx.flags, f"history change of {g} never changed a UC matrix"
+        assert f"history-effective:matrix:{g}" in ctx.flags, f"history change of {g} never changed a variance matrix"
+    assert c.get("history:sequences", 0) > 50 and c.get("inputs-untouched-checked", 0) > 1000
     assert c.get("entries:identical-inbred-parents(expected 0)", 0) > 0
     assert c.get("builds-with-nonzero-expected-variance", 0) > 100
     assert c.get("sim:executions", 0) > 1000
@@ -1138,6 +1442,8 @@ def replay(case, ctx):
         run_perm(ctx, case)
     elif layer == "L6u":
         run_uc(ctx, case)
+    elif layer == "L7":
+        run_history(ctx, case)
     else:
         c = norm_case(case)
         ref = None
